@@ -31,3 +31,12 @@ uint32_t vf_spawn(void* (*fn)(void*), void* arg);
 uint64_t vf_join(uint32_t tid);
 void vf_yield(void);
 }
+// kernel model controls (engine only)
+extern "C" {
+void vf_net_writable(int fd);                       // the next epoll_wait reports fd writable
+void vf_net_feed(int fd, const void* data, size_t n);   // bytes arrive at fd
+void vf_net_pending_accept(int fd);                 // a connection waits on listening fd
+void vf_net_script_send(int fd, int kind, size_t n);    // next send(): 0 would-block, 1 error, 2 returns 0, 3 accepts n bytes
+void vf_clock_advance_ms(uint64_t ms);
+uint64_t vf_clock_ns(void);
+}
